@@ -408,7 +408,17 @@ func (r *Reconciler) reconcileAbort(ctx context.Context, proposal *configapi.Pro
 			return controller.Result{}, nil
 		}
 
-		if config.Status.Committed.Index == proposal.Status.PrevIndex &&
+		if config.Status.Committed.Index >= proposal.TransactionIndex &&
+			config.Status.Applied.Index >= proposal.TransactionIndex {
+			// The configuration is already past this proposal: its indexes were advanced by an earlier attempt
+			// that did not get to update the proposal (a crash, a conflict). All that is left is to complete the abort.
+			proposal.Status.Phases.Abort.End = getCurrentTimestamp()
+			proposal.Status.Phases.Abort.State = configapi.ProposalAbortPhase_ABORTED
+			if err := r.updateProposalStatus(ctx, proposal); err != nil {
+				return controller.Result{}, err
+			}
+			return controller.Result{}, nil
+		} else if config.Status.Committed.Index == proposal.Status.PrevIndex &&
 			config.Status.Applied.Index == proposal.Status.PrevIndex {
 			config.Status.Committed.Index = proposal.TransactionIndex
 			config.Status.Applied.Index = proposal.TransactionIndex
